@@ -7,11 +7,12 @@ EXPLANATION = (
     "is_executing is True and current_state non-empty; C04.M2 otherwise both are reset, and a machine that was running does "
     "not stop without a done() call; C04.M3 done()/on_disable() reset the getters immediately; C04.M4 the first regular "
     "state call after a stop receives tm == 0 exactly (symbolically: clock read minus stored start instant folds to 0); "
-    "C04.M5 current_state names the state that runs next; C04.M6 the engine stops the machine only for a cause (engage() not called for this iteration, or the last timed state expired)."
+    "C04.M5 current_state names the state that runs next; C04.M6 the engine stops the machine only for a cause (engage() not called for this iteration, or the last timed state expired).  C04.M7 when engage() was not called for an iteration no regular (non must_finish) state runs in it - the machine stops in that iteration, not one later."
 )
 RULE = "one case = one (typestate, client call, oracle resolution) transition; distinct = reachable typestates"
 EXHAUSTIVE = True
-OWNED = {"C04.M1", "C04.M2", "C04.M3", "C04.M4", "C04.M5", "C04.M6", "CRASH", "ISO"}
+OWNED = {"C04.M1", "C04.M2", "C04.M3", "C04.M4", "C04.M5", "C04.M6", "C01.M1", "CRASH", "ISO"}
+RENAME = {"C01.M1": "C04.M7"}
 
 
 def check(ctx):
@@ -23,7 +24,8 @@ def check(ctx):
     ctx.rule("C04.M4", "first regular state call after a stop: tm is exactly 0")
     ctx.rule("C04.M5", "if only engage() is called and no timer fires, the first state run is the one current_state named")
     ctx.rule("C04.M6", "the engine calls done() only for a cause: no engage() for this iteration, or the last timed state expired")
+    ctx.rule("C04.M7", "when engage() was not called for an iteration, no regular (non must_finish) state runs in it: the machine stops in that iteration, not one later")
     res = smcommon.run_universes(ctx, "StateMachine", owned=OWNED)
-    smcommon.report(ctx, res, OWNED)
+    smcommon.report(ctx, res, OWNED, RENAME)
     ctx.floor("universes", len(res), 4)
     ctx.floor("typestates", sum(r["states"] for r in res), 1000)
